@@ -549,6 +549,13 @@ impl<Tx: Debug + ProstMessage + Default, Rx: Debug + ProstMessage + Default> Cha
             // disconnects cleanly instead of running the doubling growth
             // strategy on attacker-supplied numbers.
             if message_len > self.max_buffer_size {
+                // Nothing can be delivered on this channel any more: the stream
+                // cannot be re-synchronised behind a frame we refuse to buffer.
+                // Flag the channel as failed, so that the session owning it is
+                // closed (the command server closes sessions whose readiness
+                // carries ERROR) instead of reporting the same error on every
+                // wake-up with the peer left waiting for ever.
+                self.readiness.insert(Ready::ERROR);
                 return Err(ChannelError::MessageTooLarge {
                     message_len,
                     capacity: self.front_buf.capacity(),
